@@ -46,7 +46,7 @@ static void gen_g12sKeypairGen(fc_ctx* c)
 	c->a[0] = fc_out(c, c->n[10]), c->a[1] = fc_out(c, 2 * c->n[10]);
 	fc_mark_sec(c, c->a[0], c->n[10]);
 }
-static err_t call_g12sKeypairGen(fc_ctx* c) { return g12sKeypairGen(c->a[0], c->a[1], c->a[10], fc_tape, c); }
+static err_t call_g12sKeypairGen(fc_ctx* c) { return g12sKeypairGen(c->a[0], c->a[1], c->a[10], FC_RNG(c), c); }
 static int bad_g12sKeypairGen(fc_ctx* c, int j, err_t* exp)
 {
 	if (j < 4)
@@ -71,7 +71,7 @@ static void gen_g12sSign(fc_ctx* c)
 	}
 	c->a[0] = fc_out(c, 2 * c->n[10]);
 }
-static err_t call_g12sSign(fc_ctx* c) { return g12sSign(c->a[0], c->a[10], c->a[1], c->a[11], fc_tape, c); }
+static err_t call_g12sSign(fc_ctx* c) { return g12sSign(c->a[0], c->a[10], c->a[1], c->a[11], FC_RNG(c), c); }
 static int bad_g12sSign(fc_ctx* c, int j, err_t* exp)
 {
 	if (j < 4)
@@ -179,7 +179,7 @@ static void gen_dstuPointGen(fc_ctx* c)
 	dstu_load(c, 0);
 	c->a[0] = fc_out(c, 2 * c->n[10]);
 }
-static err_t call_dstuPointGen(fc_ctx* c) { return dstuPointGen(c->a[0], c->a[10], fc_tape, c); }
+static err_t call_dstuPointGen(fc_ctx* c) { return dstuPointGen(c->a[0], c->a[10], FC_RNG(c), c); }
 static int bad_dstu_gen(fc_ctx* c, int j, err_t* exp)
 {
 	/* no dead-generator variant here: dstuPointGen/dstuKeypairGen/dstuSign draw
@@ -194,7 +194,7 @@ static void gen_dstuKeypairGen(fc_ctx* c)
 	c->a[0] = fc_out(c, c->n[11]), c->a[1] = fc_out(c, 2 * c->n[10]);
 	fc_mark_sec(c, c->a[0], c->n[11]);
 }
-static err_t call_dstuKeypairGen(fc_ctx* c) { return dstuKeypairGen(c->a[0], c->a[1], c->a[10], fc_tape, c); }
+static err_t call_dstuKeypairGen(fc_ctx* c) { return dstuKeypairGen(c->a[0], c->a[1], c->a[10], FC_RNG(c), c); }
 static void gen_dstuPointVal(fc_ctx* c) { dstu_load(c, 1); dstu_keys(c); c->nsecs = 0; }
 static err_t call_dstuPointVal(fc_ctx* c) { return dstuPointVal(c->a[10], c->a[12]); }
 static int bad_dstuPointVal(fc_ctx* c, int j, err_t* exp)
@@ -242,7 +242,7 @@ static void gen_dstuSign(fc_ctx* c)
 		memset(c->a[1], 0, c->n[1]);
 	c->a[0] = fc_out(c, c->n[2] / 8);
 }
-static err_t call_dstuSign(fc_ctx* c) { return dstuSign(c->a[0], c->a[10], c->n[2], c->a[1], c->n[1], c->a[11], fc_tape, c); }
+static err_t call_dstuSign(fc_ctx* c) { return dstuSign(c->a[0], c->a[10], c->n[2], c->a[1], c->n[1], c->a[11], FC_RNG(c), c); }
 static int bad_dstuSign(fc_ctx* c, int j, err_t* exp)
 {
 	if (j < 4)
@@ -323,7 +323,7 @@ static void gen_pfokKeypairGen(fc_ctx* c)
 	c->a[0] = fc_out(c, c->n[11]), c->a[1] = fc_out(c, c->n[10]);
 	fc_mark_sec(c, c->a[0], c->n[11]);
 }
-static err_t call_pfokKeypairGen(fc_ctx* c) { return pfokKeypairGen(c->a[0], c->a[1], c->a[10], fc_tape, c); }
+static err_t call_pfokKeypairGen(fc_ctx* c) { return pfokKeypairGen(c->a[0], c->a[1], c->a[10], FC_RNG(c), c); }
 static int bad_pfokKeypairGen(fc_ctx* c, int j, err_t* exp) { return pfok_bad_params(c, j, exp); }
 static void gen_pfokPubkeyCalc(fc_ctx* c)
 {
@@ -385,18 +385,18 @@ static err_t call_pfokMTI(fc_ctx* c) { return pfokMTI(c->a[0], c->a[10], c->a[11
 
 #define D(NAME, GEN, CALL, BAD, FLAGS) { NAME, GEN, CALL, BAD, FLAGS }
 const fc_desc fc_other[] = {
-	D("g12sKeypairGen", gen_g12sKeypairGen, call_g12sKeypairGen, bad_g12sKeypairGen, FC_SECRET),
-	D("g12sSign", gen_g12sSign, call_g12sSign, bad_g12sSign, FC_SECRET),
+	D("g12sKeypairGen", gen_g12sKeypairGen, call_g12sKeypairGen, bad_g12sKeypairGen, FC_SECRET | FC_RNGARG),
+	D("g12sSign", gen_g12sSign, call_g12sSign, bad_g12sSign, FC_SECRET | FC_RNGARG),
 	D("g12sVerify", gen_g12sVerify, call_g12sVerify, bad_g12sVerify, 0),
 	D("g12sParamsVal", gen_g12sParamsVal, call_g12sParamsVal, g12s_bad_params, FC_SLOW),
-	D("dstuPointGen", gen_dstuPointGen, call_dstuPointGen, bad_dstu_gen, 0),
-	D("dstuKeypairGen", gen_dstuKeypairGen, call_dstuKeypairGen, bad_dstu_gen, FC_SECRET),
+	D("dstuPointGen", gen_dstuPointGen, call_dstuPointGen, bad_dstu_gen, FC_RNGARG),
+	D("dstuKeypairGen", gen_dstuKeypairGen, call_dstuKeypairGen, bad_dstu_gen, FC_SECRET | FC_RNGARG),
 	D("dstuPointVal", gen_dstuPointVal, call_dstuPointVal, bad_dstuPointVal, 0),
 	D("dstuPointCompress", gen_dstuCompress, call_dstuCompress, dstu_bad_params, 0),
 	D("dstuPointRecover", gen_dstuRecover, call_dstuRecover, dstu_bad_params, 0),
-	D("dstuSign", gen_dstuSign, call_dstuSign, bad_dstuSign, FC_SECRET),
+	D("dstuSign", gen_dstuSign, call_dstuSign, bad_dstuSign, FC_SECRET | FC_RNGARG),
 	D("dstuVerify", gen_dstuVerify, call_dstuVerify, bad_dstuVerify, 0),
-	D("pfokKeypairGen", gen_pfokKeypairGen, call_pfokKeypairGen, bad_pfokKeypairGen, FC_SECRET | FC_SLOW),
+	D("pfokKeypairGen", gen_pfokKeypairGen, call_pfokKeypairGen, bad_pfokKeypairGen, FC_SECRET | FC_SLOW | FC_RNGARG),
 	D("pfokPubkeyCalc", gen_pfokPubkeyCalc, call_pfokPubkeyCalc, bad_pfokKeypairGen, FC_SECRET | FC_SLOW),
 	D("pfokPubkeyVal", gen_pfokPubkeyVal, call_pfokPubkeyVal, bad_pfokPubkeyVal, FC_SLOW),
 	D("pfokDH", gen_pfokDH, call_pfokDH, bad_pfokDH, FC_SECRET | FC_SLOW),
